@@ -487,6 +487,18 @@ def check(run: Run):
         if r != 1:
             key, what = describe(e)
             run.violation(key, what, {"event": e})
+    # objects loaded from generated QCSchema documents (every key subset class): written and read back unchanged
+    from .. import qcdoc
+    qev = pmap(qcdoc.execute, qcdoc.plan(rng, run.thorough()), chunksize=4)
+    qreached = validate_traces(run, "Trace_QCSchema", [[e] for e in qev], chunk=3000, env={"QC_RULE": "cycle"})
+    for e, r in zip(qev, qreached):
+        run.count()
+        run.distinct("qcdoc:" + json.dumps(e["keys"]))
+        if r != 1:
+            key = (f"json_qcschema object loaded from a document cannot be written: {e['redump']}" if e["redump"] != "ok" else
+                   f"json_qcschema object loaded from a document does not read back the same: {' '.join(e['drift'])}")
+            run.violation(key[:200], json.dumps(e)[:1500], {"event": e})
+    run.notes["qcschema_documents"] = len(qev)
     run.notes["relations_observed"] = rels
     run.notes["formats"] = sorted(stores)
     for f in ("sdf", "pdb", "fchk"):
